@@ -38,14 +38,29 @@ RULE = ("two generators. (1) general: entry sequences of length 0-14 over <= 3 b
         "second special group whose name is derived from the first one's candidates; the numbered path is reached "
         "up to ~8 attempts deep. Both: with/without explicit id (right, wrong) and raw_manifest (right, other "
         "order, junk). The share of cases that reach attempt >= 1 / >= 2 / >= 3 at all and with a special name is "
-        "in the distribution (keys attempt>=k, special-name:attempt>=k) and logged by gen(). Thorough adds all "
+        "in the distribution (keys attempt>=k, special-name:attempt>=k) and logged by gen(). (3) one name carried by "
+        "11-110 entries (thorough: up to 300) that all want the same first-choice name: attempt numbers with 2 and 3 "
+        "digits. Targets also differ only in the 5th byte (9th / 10th hex digit: the edge of the prefix); perms up "
+        "to 2^70; an id equal to the hash of the REPAIRED list's manifest (check()'s 'raw manifest not needed' "
+        "clause). Call shapes (field `shape`, invisible to the model): id / raw_manifest omitted when default vs "
+        "passed explicitly, entries as a tuple subclass, equal entries as ONE shared DirectoryEntry object vs "
+        "distinct equal objects, perms given as DentryPerms / str / float / bool, targets of a bytes subclass. "
+        "Sequences: every sixth case first repairs the same entries with OTHER id / raw_manifest (field `prime`), "
+        "every case is called twice (same answer, argument unchanged). The types of what is handed out (bool, "
+        "Directory, tuple, DirectoryEntry, bytes) are part of the oracle. Thorough adds all "
         "sequences of length <= 4 over 2 names x 3 types x 2 targets, for the name pairs (a, a_<hex>), "
         "(%, %_<hex>) and (%%s, %%s_<hex>_1). Non-trivial = at least one repeated name; distinct = distinct case")
 TRUSTED = ["Python dict insertion order, defaultdict(list).append order, set membership, b'_%d' % n, "
            "binascii.hexlify, attr.evolve re-running the validators - as modelled in model/Dedup.v",
            "C02's model of directory_git_object / the Directory validators (model/Dir.v), tied by the C02 check",
            "lib/Sha1.v is only an instance of the hash oracle (both sides hash the same bytes; compared on every case)"]
-ASSUMPTIONS = ["input domain: entries are DirectoryEntry objects, hence their names contain no '/' (DirectoryEntry.check_name); "
+ASSUMPTIONS = ["input domain: entries is a TUPLE (or tuple subclass) of DirectoryEntry objects as the signature says, id is bytes, "
+               "raw_manifest is None or bytes. Outside it the function is not total and not covered: a list or a generator "
+               "of entries, or an id of another type, makes the first Directory(...) raise attrs_strict's AttributeTypeError, "
+               "which IS a ValueError and is therefore taken for 'duplicated names' (observed on /repo: a duplicate-free "
+               "LIST comes back with flag True and a raw manifest that check() rejects; a generator comes back empty)",
+               "perms are non-negative (the model's N); negative perms are accepted by DirectoryEntry but not modelled",
+               "entries are DirectoryEntry objects, hence their names contain no '/' (DirectoryEntry.check_name); "
                "every other byte value (incl. '%', '{', backslash, control and non-UTF-8 bytes, NUL) may occur in a name - the "
                "model and the theorems treat names as arbitrary byte strings, the generators exercise those bytes on the renaming paths",
                "C19_manifests_differ assumes NUL-free names and 20-byte targets (the manifest decoder's domain)",
@@ -88,17 +103,22 @@ def old_code_fails(entries):
     return len(set(out)) < len(out)
 
 
-def attempt_depths(entries):
+def spec_repair(entries):
     """spec-level replay of the documented naming rule (first free name among <base>, <base>_1, <base>_2, ...
-    against all original names plus the names already given): for every renamed entry, (original name, number of
-    attempts).  Used only to classify cases (which renaming path is reached), never as an expected result."""
+    against all original names plus the names already given): (repaired entry list, [(original name, number of
+    attempts) per renamed entry]).  Used only to classify cases (which renaming path is reached) and to BUILD inputs
+    (an id equal to the hash of the repaired list's manifest), never as an expected result."""
     names = [e[0] for e in entries]
     if len(set(names)) == len(names):
-        return []
+        return list(entries), []
     used = set(names)
-    out = []
-    for n in dict.fromkeys(names):
-        grp = [e for t in PRECEDENCE for e in entries if e[0] == n and e[1] == t]
+    by_name = {}
+    for e in entries:
+        by_name.setdefault(e[0], {}).setdefault(e[1], []).append(e)
+    res, out = [], []
+    for n, by_type in by_name.items():
+        grp = [e for t in PRECEDENCE for e in by_type.get(t, [])]
+        res.append(grp[0])
         for e in grp[1:]:
             base = base_name(e[0], e[2])
             new, k = base, 0
@@ -107,7 +127,12 @@ def attempt_depths(entries):
                 new = base + b"_" + str(k).encode()
             used.add(new)
             out.append((n, k))
-    return out
+            res.append((new,) + tuple(e[1:]))
+    return res, out
+
+
+def attempt_depths(entries):
+    return spec_repair(entries)[1]
 
 
 def is_special(name):
@@ -161,8 +186,10 @@ def _id_raw(rng, es, p_none):
         id_ = b""
     elif r < p_none + 0.5 * (1 - p_none):
         id_ = hashlib.sha1(raw if raw is not None else man).digest()
-    elif r < p_none + 0.75 * (1 - p_none):
+    elif r < p_none + 0.7 * (1 - p_none):
         id_ = hashlib.sha1(man).digest()
+    elif r < p_none + 0.85 * (1 - p_none):
+        id_ = hashlib.sha1(spec_manifest(spec_repair(es)[0])).digest()      # the id the REPAIRED entries would have
     else:
         id_ = bytes(rng.randrange(256) for _ in range(rng.choice([20, 20, 1])))
     return id_, raw
@@ -225,17 +252,22 @@ def gen_clash_case(rng):
     es = es[:16]
     id_, raw = _id_raw(rng, es, 0.8)
     return {"entries": [[n_.hex(), t, g.hex(), p] for n_, t, g, p in es], "id": id_.hex(),
-            "raw": None if raw is None else raw.hex()}
+            "raw": None if raw is None else raw.hex(), "shape": _shape(rng)}
 
 
 def _target(rng, pool):
     r = rng.random()
     if r < 0.55 and pool:
         return rng.choice(pool)                        # equal targets
-    if r < 0.75 and pool:
+    if r < 0.68 and pool:
         t = rng.choice(pool)                           # same first 5 bytes, different tail
         if len(t) >= 6:
             return t[:5] + bytes(rng.randrange(256) for _ in range(len(t) - 5))
+        return t
+    if r < 0.75 and pool:
+        t = rng.choice(pool)                           # boundary of the prefix: differs only in the 5th byte
+        if len(t) >= 5:                                # (high nibble = 9th hex digit / low nibble = 10th hex digit)
+            return t[:4] + bytes([t[4] ^ rng.choice([0x01, 0x10, 0x80])]) + t[5:]
         return t
     if r < 0.82:
         return bytes(rng.randrange(256) for _ in range(rng.choice([0, 1, 4, 5, 6, 19, 21])))
@@ -265,7 +297,7 @@ def gen_case(rng):
         t = rng.choice(TYPES) if rng.random() < 0.8 else "file"
         tg = _target(rng, pool)
         pool.append(tg)
-        perms = PERMS[t] if rng.random() < 0.8 else rng.choice([0, 0o100755, 0o120000, 7, rng.randrange(65536)])
+        perms = PERMS[t] if rng.random() < 0.8 else rng.choice([0, 1, 0o100755, 0o120000, 7, rng.randrange(65536), 2 ** 40 + 7, 2 ** 70])
         es.append((nm, t, tg, perms))
     # extra entries whose name is another entry's would-be replacement name
     if es and rng.random() < 0.5:
@@ -284,7 +316,45 @@ def gen_case(rng):
     es = es[:14]
     id_, raw = _id_raw(rng, es, 0.6)
     return {"entries": [[n_.hex(), t, tg.hex(), p] for n_, t, tg, p in es], "id": id_.hex(),
-            "raw": None if raw is None else raw.hex()}
+            "raw": None if raw is None else raw.hex(), "shape": _shape(rng)}
+
+
+SHAPES = ["omit", "tuplesub", "share", "permconv", "targetsub"]
+
+
+def _shape(rng):
+    """how the call is made (the model does not see it; the result must not depend on it):
+       omit      - id / raw_manifest left out of the call when they have their default value (else passed explicitly)
+       tuplesub  - entries is an instance of a tuple subclass
+       share     - equal entries are ONE DirectoryEntry object occurring several times (else equal but distinct objects)
+       permconv  - perms handed to DirectoryEntry as DentryPerms member / decimal str / float / bool (its converter is int)
+       targetsub - targets are instances of a bytes subclass"""
+    r = rng.random()
+    if r < 0.45:
+        return []
+    if r < 0.8:
+        return [rng.choice(SHAPES)]
+    return sorted(rng.sample(SHAPES, rng.choice([2, 3, 5])))
+
+
+def _many(rng, n):
+    """one name carried by n entries that all want the same first-choice name (plus a few other entries): the
+    attempt counter gets 2 and 3 digits"""
+    nm = rng.choice([b"a", b"", b"%d", b"x_1", special_name(rng)])
+    tg = bytes(rng.randrange(256) for _ in range(20))
+    t0 = rng.choice(TYPES)
+    es = []
+    for k in range(n):
+        r = rng.random()
+        t = t0 if r < 0.9 else rng.choice(TYPES)
+        g = tg if r < 0.7 else tg[:5] + bytes(rng.randrange(256) for _ in range(15))
+        es.append((nm, t, g, PERMS[t]))
+    base = base_name(nm, tg)
+    for k in rng.sample(range(0, n + 3), rng.choice([0, 1, 3])):       # some numbered names are already taken
+        es.insert(rng.randrange(len(es) + 1), (base if k == 0 else base + b"_" + str(k).encode(), "file", tg, PERMS["file"]))
+    id_, raw = _id_raw(rng, es, 0.8)
+    return {"entries": [[n_.hex(), t, g.hex(), p] for n_, t, g, p in es], "id": id_.hex(),
+            "raw": None if raw is None else raw.hex(), "shape": _shape(rng)}
 
 
 def _w(es, id_="", raw=None):
@@ -315,7 +385,16 @@ def gen(rng, tier):
              _w([(b"%d", "file", T1)] * 3 + [(b"%d_0101010101", "file", b"\x10")] * 2)]
     for k in range(n_cases):
         # interleaved, so that a truncated run still sees both generators
-        cases.append(gen_clash_case(rng) if k % 3 == 2 else gen_case(rng))
+        c = gen_clash_case(rng) if k % 3 == 2 else gen_case(rng)
+        cases.append(c)
+        if k % 6 == 5:
+            # before the call under test, the SAME entries are repaired once with other id / raw_manifest arguments
+            # (a result remembered per entry list, or any state that outlives a call, would show)
+            id_, raw = _id_raw(rng, dec_entries(c), 0.35)
+            c["prime"] = {"id": id_.hex(), "raw": None if raw is None else raw.hex()}
+    # one name many times: attempt numbers with 2 and 3 digits
+    for n in ([11, 12, 14, 25, 30, 104, 110] if tier == "quick" else [11, 12, 13, 25, 40, 99, 101, 104, 120, 200, 300] * 3):
+        cases.insert(rng.randrange(10, len(cases)), _many(rng, n))
     if tier == "thorough":
         TT = T1[:5] + b"\x09" * 15
         for pair in ((b"a", b"a_0101010101"), (b"%", b"%_0101010101"), (b"%s", b"%s_0101010101_1")):
@@ -333,8 +412,10 @@ def gen(rng, tier):
         from . import core
         core.log("[C19] gen: %d cases; share reaching " % tot
                  + ", ".join("%s %.1f%%" % (k, 100.0 * cnt.get(k, 0) / tot) for k in
-                             ("attempt>=1", "attempt>=2", "attempt>=3", "special-name:attempt>=1", "special-name:attempt>=2",
-                              "special-name:attempt>=3", "percent-name:attempt>=1", "percent-name:attempt>=2")))
+                             ("attempt>=1", "attempt>=2", "attempt>=3", "special-name:attempt>=1",
+                              "special-name:attempt>=2", "special-name:attempt>=3", "percent-name:attempt>=1",
+                              "percent-name:attempt>=2"))
+                 + "; cases with attempt>=10: %d, >=100: %d" % (cnt.get("attempt>=10", 0), cnt.get("attempt>=100", 0)))
     except Exception:
         pass
     return cases
@@ -352,8 +433,9 @@ def _depth_keys(es):
             ks.append("special-name:attempt>=%d" % lim)
         if any(k >= lim and b"%" in n for n, k in d):
             ks.append("percent-name:attempt>=%d" % lim)
-    if any(k >= 5 for _, k in d):
-        ks.append("attempt>=5")
+    for lim in (5, 10, 100):
+        if any(k >= lim for _, k in d):
+            ks.append("attempt>=%d" % lim)
     return ks
 
 
@@ -369,11 +451,11 @@ def nontrivial(c):
 def classify(c):
     es = dec_entries(c)
     ns = [e[0] for e in es]
-    ks = ["n=%s" % (len(ns) if len(ns) < 5 else "5-8" if len(ns) <= 8 else ">8")]
+    ks = ["n=%s" % (len(ns) if len(ns) < 5 else "5-8" if len(ns) <= 8 else "9-16" if len(ns) <= 16 else ">16")]
     if len(set(ns)) < len(ns):
         ks.append("repeated-name")
         mx = max(ns.count(n) for n in set(ns))
-        ks.append("max-multiplicity=%d" % mx)
+        ks.append("max-multiplicity=%s" % (mx if mx <= 5 else "6-99" if mx < 100 else ">=100"))
         if len({(e[0], e[1], e[2]) for e in es}) < len(es):
             ks.append("equal-triple")
         if any(len({e[1] for e in es if e[0] == n}) > 1 for n in set(ns)):
@@ -383,28 +465,121 @@ def classify(c):
         ks += _depth_keys(es)                           # how deep the numbered path is reached, and with which names
         if any(is_special(n) for n in set(ns) if ns.count(n) > 1):
             ks.append("special-name-repeated")
+        # orders that decide the raw manifest of the ORIGINAL list: equal sort keys (file/rev of one name) in both
+        # orders, and a dir next to a non-dir of the same name with a name sorting between NAME and NAME/
+        for n in set(ns):
+            kinds = [e[1] for e in es if e[0] == n and e[1] != "dir"]
+            if "file" in kinds and "rev" in kinds:
+                ks.append("file-before-rev" if kinds.index("file") < kinds.index("rev") else "rev-before-file")
+            ts = {e[1] for e in es if e[0] == n}
+            if "dir" in ts and len(ts) > 1 and any(n < m < n + b"/" for m in set(ns)):
+                ks.append("name-between-NAME-and-NAME/")
+        if c["id"] and bytes.fromhex(c["id"]) == hashlib.sha1(spec_manifest(spec_repair(es)[0])).digest():
+            ks.append("id-of-repaired-list")
     if c["id"]:
         ks.append("id-given")
     if c["raw"] is not None:
         ks.append("raw-given")
+        if c["raw"] == "":
+            ks.append("raw-empty-bytes")
+    for sh in c.get("shape", []):
+        ks.append("shape:" + sh)
+    if c.get("prime"):
+        ks.append("primed:same-entries-repaired-before-with-other-id/raw")
+    if any(e[3] >= 2 ** 32 for e in es):
+        ks.append("perms>=2^32")
     return ks
 
 
 # ---------------------------------------------------------------- implementation
+class _TupleSub(tuple):
+    pass
+
+
+class _BytesSub(bytes):
+    pass
+
+
+def _perm_conv(p, k):
+    """the same permission value in another type accepted by DirectoryEntry's converter (int)"""
+    from swh.model.from_disk import DentryPerms
+    if k % 4 == 1:
+        return str(p)
+    if k % 4 == 2 and p < 2 ** 53:
+        return float(p)
+    if k % 4 == 3:
+        try:
+            return DentryPerms(p)
+        except ValueError:
+            return True if p == 1 else p
+    return p
+
+
+def _build_entries(c):
+    from swh.model.model import DirectoryEntry
+    shape = c.get("shape", [])
+    cache = {}
+    out = []
+    for k, (n, t, tg, p) in enumerate(dec_entries(c)):
+        if "share" in shape and (n, t, tg, p) in cache:
+            out.append(cache[(n, t, tg, p)])
+            continue
+        e = DirectoryEntry(name=n, type=t, target=_BytesSub(tg) if "targetsub" in shape else tg,
+                           perms=_perm_conv(p, k) if "permconv" in shape else p)
+        cache[(n, t, tg, p)] = e
+        out.append(e)
+    return _TupleSub(out) if "tuplesub" in shape else tuple(out)
+
+
+def _call(c, entries, args=None):
+    from swh.model.model import Directory
+    args = args or c
+    kw = {"entries": entries}
+    id_ = bytes.fromhex(args["id"])
+    raw = None if args["raw"] is None else bytes.fromhex(args["raw"])
+    omit = "omit" in c.get("shape", [])
+    if not (omit and id_ == b""):
+        kw["id"] = id_
+    if not (omit and raw is None):
+        kw["raw_manifest"] = raw
+    return Directory.from_possibly_duplicated_entries(**kw)
+
+
 def impl(c):
     from swh.model.model import Directory, DirectoryEntry
     try:
-        entries = tuple(DirectoryEntry(name=n, type=t, target=tg, perms=p) for n, t, tg, p in dec_entries(c))
+        entries = _build_entries(c)
     except Exception as e:
         return {"error": "build:" + exc_class(e)}
+    before = [(e.name, e.type, e.target, e.perms) for e in entries]
     raw = None if c["raw"] is None else bytes.fromhex(c["raw"])
+    if c.get("prime"):
+        try:
+            _call(c, entries, c["prime"])
+        except Exception:
+            pass
     try:
-        flag, d = Directory.from_possibly_duplicated_entries(entries=entries, id=bytes.fromhex(c["id"]), raw_manifest=raw)
+        flag, d = _call(c, entries)
     except Exception as e:
         return {"error": exc_class(e)}
     res = {"flag": bool(flag),
            "entries": [[e.name.hex(), e.type, e.target.hex(), e.perms] for e in d.entries],
            "id": d.id.hex(), "raw": None if d.raw_manifest is None else d.raw_manifest.hex()}
+    # the types of what is handed out
+    bad = []
+    if type(flag) is not bool:
+        bad.append("flag is a %s" % type(flag).__name__)
+    if type(d) is not Directory:
+        bad.append("the directory is a %s" % type(d).__name__)
+    if not isinstance(d.entries, tuple):
+        bad.append("entries is a %s" % type(d.entries).__name__)
+    if any(type(e) is not DirectoryEntry for e in d.entries):
+        bad.append("an entry is not a DirectoryEntry")
+    if any(type(e.name) is not bytes or type(e.perms) is not int or not isinstance(e.target, bytes) for e in d.entries):
+        bad.append("an entry attribute has another type")
+    if type(d.id) is not bytes or not (d.raw_manifest is None or type(d.raw_manifest) is bytes):
+        bad.append("id / raw_manifest is not bytes")
+    res["types"] = bad
     try:
         d.check()
         res["check"] = "ok"
@@ -415,6 +590,13 @@ def impl(c):
             res["same_as_ordinary"] = (d == Directory(entries=entries, id=bytes.fromhex(c["id"]), raw_manifest=raw))
         except Exception as e:
             res["same_as_ordinary"] = "error:" + exc_class(e)
+    # the argument is left as it was, and the same call again gives the same answer
+    res["input_unchanged"] = [(e.name, e.type, e.target, e.perms) for e in entries] == before
+    try:
+        flag2, d2 = _call(c, entries)
+        res["again_same"] = (flag2 == flag and type(flag2) is type(flag) and d2 == d)
+    except Exception as e:
+        res["again_same"] = "error:" + exc_class(e)
     return res
 
 
@@ -460,15 +642,29 @@ def model(c, resp):
 # ---------------------------------------------------------------- the property, on the implementation
 def _match(orig, res):
     """is there a bijection original entry -> result entry keeping (type, target, perms) with the result
-    name equal to the original name or the original name followed by a suffix starting with '_'?"""
-    if not orig:
-        return not res
-    o = orig[0]
-    for k, r in enumerate(res):
-        if r[1:] == o[1:] and (r[0] == o[0] or r[0].startswith(o[0] + b"_")):
-            if _match(orig[1:], res[:k] + res[k + 1:]):
-                return True
-    return False
+    name equal to the original name or the original name followed by a suffix starting with '_'?
+    The sets of admissible result names of two original names are nested or disjoint, so taking the original names
+    longest first and giving each any admissible free result name decides it."""
+    if len(orig) != len(res):
+        return False
+    free = {}
+    for r in res:
+        free.setdefault(r[1:], []).append(r[0])
+    for o in sorted(orig, key=lambda e: -len(e[0])):
+        names = free.get(o[1:], [])
+        pick = None
+        if o[0] in names:
+            pick = o[0]
+        else:
+            pre = o[0] + b"_"
+            for r in names:
+                if r.startswith(pre):
+                    pick = r
+                    break
+        if pick is None:
+            return False
+        names.remove(pick)
+    return True
 
 
 def oracle(c, ires, mres):
@@ -481,6 +677,8 @@ def oracle(c, ires, mres):
     repeated = len(set(ns)) < len(ns)
     if ires["flag"] != repeated:
         return "flag is %s but %s name is repeated" % (ires["flag"], "a" if repeated else "no")
+    if ires.get("types"):
+        return "the result is not a (bool, Directory of a tuple of DirectoryEntry): " + "; ".join(ires["types"])
     res = [(bytes.fromhex(n), t, bytes.fromhex(tg), p) for n, t, tg, p in ires["entries"]]
     rn = [e[0] for e in res]
     if len(set(rn)) < len(rn):
@@ -550,10 +748,29 @@ def compare(c, ires, mres):
         return "check() verdict differs: model %s, implementation %s" % (mres["check"], ires["check"])
     if ires["check"] not in ("ok", "ValueError"):
         return "check() raised an unexpected exception class " + ires["check"]
+    if ires.get("input_unchanged") is False:
+        return "the entries handed in were modified by the call"
+    if ires.get("again_same") is not True:
+        return "the same call made a second time does not give the same result: %s" % ires.get("again_same")
     return None
 
 
 def shrink(c):
+    for cand in _shrink(c):
+        cand["shape"] = c.get("shape", [])
+        if c.get("prime"):
+            cand["prime"] = c["prime"]
+        yield cand
+    if c.get("prime"):
+        yield {"entries": c["entries"], "id": c["id"], "raw": c["raw"], "shape": c.get("shape", [])}
+    for sh in c.get("shape", []):
+        smaller = {"entries": c["entries"], "id": c["id"], "raw": c["raw"], "shape": [x for x in c["shape"] if x != sh]}
+        if c.get("prime"):
+            smaller["prime"] = c["prime"]
+        yield smaller
+
+
+def _shrink(c):
     es = c["entries"]
     for k in range(len(es)):
         yield {"entries": es[:k] + es[k + 1:], "id": c["id"], "raw": c["raw"]}
